@@ -272,6 +272,18 @@ func init() {
 		return &StrV{b: out}
 	}
 
+	// formatting of symbolic tags/types is only ever used for error messages
+	opaqueIfSym := func(name string) {
+		I[name] = func(in *Interp, caller *frame, fn *ssa.Function, args []Value) Value {
+			if t, ok := args[0].(*Term); ok && !in.simp(t).IsConst() {
+				return in.opaqueStr(name)
+			}
+			return in.callSSABody(caller, fn, args)
+		}
+	}
+	opaqueIfSym("(github.com/ovh/kmip-go/ttlv.Type).String")
+	opaqueIfSym("github.com/ovh/kmip-go/ttlv.TagString")
+
 	// errors
 	I["errors.Is"] = func(in *Interp, caller *frame, fn *ssa.Function, args []Value) Value {
 		return BoolT(in.errorsIs(caller, args[0], args[1]))
@@ -763,7 +775,11 @@ func (in *Interp) watchStore(c *Cell, v Value) {
 	if !ok1 || !ok2 || old == nv {
 		return
 	}
-	diff := BNot(Eq(old, nv))
+	in.watchQuery(c, BNot(Eq(old, nv)))
+}
+
+func (in *Interp) watchQuery(c *Cell, diff *Term) {
+	root := c.par
 	if diff.IsFalse() {
 		return
 	}
